@@ -19,6 +19,9 @@ import (
 //	first-malformed server-first with broken salt/iteration fields
 //	final-ok       the valid server-final of the running exchange (only computable after first-ok
 //	               and a client-final; otherwise it degrades to final-other and is traced as such)
+//	final-prev     the server-final that was valid for the previous, abandoned exchange of this
+//	               connection (the client restarted after an empty challenge); degrades to
+//	               final-other when there is no such exchange
 //	final-other    a well-formed server-final computed with another key
 //	final-empty    a server-final computed over empty client state (no salted password, no
 //	               auth message): HMAC(HMAC("", "Server Key"), "")
@@ -45,6 +48,8 @@ type adversary struct {
 	bare   string
 	first  string // valid server-first sent in this exchange ("" if none)
 	final  string // client-final-without-proof received after the valid server-first
+	// the previous exchange, as far as it got
+	prevBare, prevFirst, prevFinal string
 }
 
 func newAdversary(a AuthCfg, mech string, s *Session) *adversary {
@@ -75,6 +80,9 @@ func (ad *adversary) classify(resp []byte, has bool) string {
 	case strings.HasPrefix(s, "n,,") || strings.HasPrefix(s, "y,,") || strings.HasPrefix(s, "p="):
 		ad.exch++
 		f := strings.SplitN(s, ",", 3)
+		if ad.first != "" && ad.final != "" {
+			ad.prevBare, ad.prevFirst, ad.prevFinal = ad.bare, ad.first, ad.final
+		}
 		ad.bare, ad.cn, ad.first, ad.final = "", "", "", ""
 		if len(f) == 3 {
 			ad.bare = f[2]
@@ -163,6 +171,15 @@ func (ad *adversary) Step(resp []byte, has bool) StepOut {
 			st.Sym = "final-other"
 			_, _, sk := ScramKeys(ad.h, "some-other-password", []byte("othersalt"), 2)
 			msg = "v=" + base64.StdEncoding.EncodeToString(hm(ad.h, sk, []byte("another exchange")))
+		}
+	case "final-prev":
+		if ad.prevFirst != "" {
+			_, _, sk := ScramKeys(ad.h, ad.a.Pass, ad.a.Salt, ad.iter())
+			msg = "v=" + base64.StdEncoding.EncodeToString(hm(ad.h, sk, []byte(ad.prevBare+","+ad.prevFirst+","+ad.prevFinal)))
+		} else {
+			st.Sym = "final-other"
+			_, _, sk := ScramKeys(ad.h, "some-other-password", ad.a.Salt, ad.iter())
+			msg = "v=" + base64.StdEncoding.EncodeToString(hm(ad.h, sk, []byte(ad.bare+","+ad.first+","+ad.final)))
 		}
 	case "final-other":
 		_, _, sk := ScramKeys(ad.h, "some-other-password", ad.a.Salt, ad.iter())
